@@ -697,8 +697,8 @@ fn exhaustive_case<T: Elem + Clone + Ord + Default>(ctx: &mut Ctx, prop: &'stati
 fn hist_params(ctx: &Ctx) -> (usize, usize, usize, usize, usize) {
     // (reduced-alphabet dimension, exhaustive depth, #random histories, steps per history, maxdim)
     match (ctx.scale, ctx.tier) {
-        (Scale::Miri, Tier::Quick) => (1, 2, 24, 12, 3),
-        (Scale::Miri, Tier::Thorough) => (1, 2, 96, 16, 3),
+        (Scale::Miri, Tier::Quick) => (1, 1, 16, 10, 3),
+        (Scale::Miri, Tier::Thorough) => (1, 2, 64, 16, 3),
         (Scale::Vg, _) => (1, 3, 300, 30, 5),
         (Scale::Native, Tier::Quick) => (2, 3, 6000, 40, 6),
         (Scale::Native, Tier::Thorough) => (2, 4, 200000, 60, 8),
